@@ -69,7 +69,8 @@ type Knobs struct {
 	PInitContainers            float64
 	Closed                     bool
 	NoMinRuntimeNearBoundary   bool
-	NoEvictCallFaults          bool // C13/C14 do not quantify over failing Evict calls
+	NoEvictCallFaults          bool    // C13/C14 do not quantify over failing Evict calls
+	PQueueDepth                float64 // C16: probability of a finite per-action queue depth for allocate
 }
 
 var allActions = "allocate, consolidation, reclaim, preempt, stalegangeviction"
@@ -144,6 +145,7 @@ func Profile(name string) Knobs {
 		k.KindWeights = map[string]int{"cpu": 3, "whole": 5, "fraction": 3, "gpumem": 2, "multifrac": 1}
 	case "order": // C16
 		k.CloneClasses = 3
+		k.PQueueDepth = 0.3
 		k.Fill = 0.45
 		k.ActionsChoices = []string{"allocate", allActions}
 		k.PFaults = 0
@@ -298,6 +300,10 @@ func (g *G) config() {
 	}
 	if g.p(0.3) {
 		c.PluginArgs["minruntime"] = map[string]string{"defaultReclaimMinRuntime": "0s", "reclaimResolveMethod": pick(g, []string{"lca", "queue"})}
+	}
+	if g.k.PQueueDepth > 0 && g.p(g.k.PQueueDepth) {
+		// per-action queue depth: only the first k jobs of a leaf queue are tried by the action
+		c.QueueDepth = map[string]int{"allocate": g.in(1, 4)}
 	}
 	c.MaxNumberConsolidationPreemptees = pick(g, []int{16, 16, 4, 1, 0, -1})
 	c.UseSchedulingSignatures = g.p(0.5)
